@@ -15,6 +15,7 @@ G_TRACES = {}       # id(grid) -> dict(ver, given, evs, ok)
 S_TRACES = {}       # id(map)  -> dict(cls, validator, evs, ok, keys)
 ROWS = {}           # id(obj) -> row id
 MAXEV = 400
+FILTERS = []       # Grid.filter calls of the test-suite (VERIF_REC_FILTER)
 
 
 def depth():
@@ -179,9 +180,49 @@ def install():
 
     orig_filter = Grid.filter
 
+    def rec_filter(self, a, kw):
+        """Grid.filter(text[, limit]) as the tests call it: the text, the rows as abstract values, the outcome and the
+        selected rows (by identity) -- judged by spec/Trace_FilterLex.tla"""
+        import absval
+        import hszinc
+        text = a[0] if a else kw.get('filter')
+        limit = a[1] if len(a) > 1 else kw.get('limit', 0)
+        rows = list(self._row)
+        ident = {id(o): i + 1 for i, o in enumerate(rows)}
+        rec = None
+        try:
+            A = absval.Abs(hszinc)
+            if isinstance(text, str) and isinstance(limit, int) and limit >= 0:
+                rec = {'text': text, 'k': limit,
+                       'arows': [[[absval.cps(k), A.val(v)] for k, v in r.items()] for r in rows]}
+        except Exception:
+            rec = None
+        try:
+            with Nest():
+                r = orig_filter(self, *a, **kw)
+        except Exception as e:
+            if rec is not None:
+                import pyparsing
+                rec.update(out='parse_error' if isinstance(e, pyparsing.ParseBaseException) else 'raises', sel=[],
+                           msg=type(e).__name__)
+                FILTERS.append(rec)
+            raise
+        if rec is not None:
+            try:
+                rec.update(out='ok', sel=[ident.get(id(o), 0) for o in r], msg='')
+                FILTERS.append(rec)
+            except Exception:
+                pass
+        tr = gtrace(r)
+        if tr is not None and r is not self:
+            tr['ok'] = False
+        return r
+
     def g_filter(self, *a, **kw):
         if depth() > 0:
             return orig_filter(self, *a, **kw)
+        if os.environ.get('VERIF_REC_FILTER'):
+            return rec_filter(self, a, kw)
         with Nest():
             r = orig_filter(self, *a, **kw)
         tr = gtrace(r)
@@ -391,7 +432,7 @@ def dump():
         if not bad:
             st.append({'cls': t['cls'], 'evs': evs})
     with open(out, 'w') as f:
-        json.dump({'grids': gt, 'maps': st, 'codec': CODEC,
+        json.dump({'grids': gt, 'maps': st, 'codec': CODEC, 'filters': FILTERS,
                    'stats': {'grids_seen': len(G_TRACES), 'maps_seen': len(S_TRACES),
                              'grid_traces': len(gt), 'map_traces': len(st)}}, f)
 
